@@ -69,4 +69,50 @@ theorem torusLen_error (s d : V3) (w h : Int) :
 /-- non-vacuity: on the 1 x 2 torus the two chips are one hop apart -/
 example : torusLen ⟨0, 0, 0⟩ ⟨0, 1, 0⟩ 1 2 = .ok 1 := by rfl
 
+/-- **minimise_xyz** keeps the 2-D displacement, makes the median component zero, and the
+resulting `|x|+|y|+|z|` is the hexagonal norm (= graph distance) of the displacement. -/
+theorem minimise_xyz_spec (v : V3) :
+    proj (minimiseXyz v) = proj v ∧ Minimal (minimiseXyz v) ∧
+    absSum (minimiseXyz v) = hexLen (proj v).1 (proj v).2 :=
+  minimise_spec v
+
+/-- `to_xyz` addresses the same chip -/
+theorem toXyz_proj (p : P2) : proj (toXyz p) = p := by simp [proj, toXyz]
+
+/-- **Mesh vector.** `shortest_mesh_path` has exactly `shortest_mesh_path_length` hops and leads from
+the source chip to the destination chip. -/
+theorem meshPath_ok (s d : V3) :
+    absSum (meshPath s d) = meshLen s d ∧
+    ((proj s).1 + (proj (meshPath s d)).1, (proj s).2 + (proj (meshPath s d)).2) = proj d := by
+  obtain ⟨hp, _, ha⟩ := minimise_spec ⟨d.x - s.x, d.y - s.y, d.z - s.z⟩
+  simp only [meshPath]
+  rw [ha, hp, meshLen_eq_hexLen]
+  simp only [proj]
+  refine ⟨by congr 1 <;> omega, by ext <;> simp <;> omega⟩
+
+/-- **Torus vector**, for every outcome of the four `random.random()` tie-break draws (`k_i / den`)
+and every spiral count `random.randint` can return: the vector has exactly
+`shortest_torus_path_length` hops and lands on the destination modulo (w, h). -/
+theorem torusPath_ok (s d : V3) (w h : Int) (hw : 1 ≤ w) (hh : 1 ≤ h) (den k0 k1 k2 k3 t : Nat)
+    (h0 : k0 < den) (h1 : k1 < den) (h2 : k2 < den) (h3 : k3 < den) :
+    ∃ v, torusPath s d w h den k0 k1 k2 k3 t = .ok v ∧
+      torusLen s d w h = .ok (absSum v) ∧
+      ((proj s).1 + (proj v).1 - (proj d).1) % w = 0 ∧
+      ((proj s).2 + (proj v).2 - (proj d).2) % h = 0 := by
+  have := torusPathCore_ok s d w h (by omega) (by omega) den k0 k1 k2 k3 t h0 h1 h2 h3
+  have hz : ¬ (w = 0 ∨ h = 0) := by omega
+  refine ⟨_, by simp only [torusPath, hz, if_false], ?_, this.2.1, this.2.2⟩
+  simp only [torusLen, hz, if_false, this.1]
+
+/-- every spiral count between 0 and the maximum is a possible outcome of the model's `randint` -/
+theorem randint_surjective (lo hi r : Int) (h1 : lo ≤ r) (h2 : r ≤ hi) :
+    ∃ t : Nat, randint lo hi t = r := by
+  refine ⟨(r - lo).toNat, ?_⟩
+  simp only [randint]
+  have : ((r - lo).toNat : Int) = r - lo := by omega
+  rw [this, Int.emod_eq_of_lt (by omega) (by omega)]; omega
+
+/-- non-vacuity: 5 x 1 torus, a spiral is drawn -/
+example : torusPath ⟨0, 0, 0⟩ ⟨3, 0, 0⟩ 5 1 4 0 0 3 3 1 = .ok ⟨-1, 0, 1⟩ := by rfl
+
 end Rig.C11
